@@ -640,12 +640,13 @@ pub fn call_genu64<O: Gen<u64> + ?Sized>(rv: &mut Recv<O>, mi: usize, a: &mut A)
     }
 }
 
-pub const ATTRS: [Meth; 3] = [m("at_first"), m("at_last"), m("at_c")];
+pub const ATTRS: [Meth; 4] = [m("at_first"), m("at_last"), m("at_c"), m("last")];
 pub fn call_attrs<O: Attrs + ?Sized>(rv: &mut Recv<O>, mi: usize, a: &mut A) -> Ret {
     match mi {
         0 => Ret::U(rv.r().at_first(a.u(0))),
         1 => Ret::U(need_mut!(rv).at_last(a.u(0))),
         2 => Ret::U(rv.r().at_c() as u64),
+        3 => Ret::U(need_mut!(rv).last(a.u(0))),
         _ => Ret::NoSuchMethod,
     }
 }
